@@ -160,6 +160,16 @@ func mkMaterial(typ string, rng *mrand.Rand) *material {
 		rng.Read(nb)
 		m.rcp["N"] = forged{&age.Stanza{Type: "ssh-rsa", Args: []string{tagN}, Body: nb}}
 	}
+	// "M": a stanza of the identity's own type with another tag and the wrong number of arguments
+	{
+		mb := make([]byte, 32)
+		rng.Read(mb)
+		if typ == "ed25519" {
+			m.rcp["M"] = forged{&age.Stanza{Type: "ssh-ed25519", Args: []string{"AAAAAA"}, Body: mb}}
+		} else {
+			m.rcp["M"] = forged{&age.Stanza{Type: "ssh-rsa", Args: []string{"AAAAAA", "extra"}, Body: mb}}
+		}
+	}
 	if typ == "ed25519" {
 		body := make([]byte, 256)
 		rng.Read(body)
@@ -266,6 +276,8 @@ func realCallInner(id *agessh.EncryptedSSHIdentity, m *material, c *call, prompt
 		return "err_decrypt"
 	case strings.Contains(err.Error(), "mismatched private and public SSH key"):
 		return "err_mismatch"
+	case strings.Contains(err.Error(), "invalid ssh-ed25519 recipient block"), strings.Contains(err.Error(), "invalid ssh-rsa recipient block"):
+		return "err_malformed"
 	}
 	return "err_other:" + err.Error()
 }
